@@ -75,14 +75,6 @@ bool has_nonfinite(const RV& v) {
 bool has_raw(const RV& v) { if (v.k == RV::Raw) return true; for (auto& e : v.arr) if (has_raw(e)) return true; for (auto& e : v.obj) if (has_raw(e.second)) return true; return false; }
 double from_bits(uint64_t b) { double d; memcpy(&d, &b, 8); return d; }
 
-// construction with constant keys (cJSON_AddItemToObjectCS); keys live in the RV, which outlives the tree
-cJSON* build_tree_cs(const RV& v) {
-    switch (v.k) {
-        case RV::Arr: { cJSON* a = LIB(cJSON_CreateArray()); for (auto& e : v.arr) { cJSON* c = build_tree_cs(e); LIBV(cJSON_AddItemToArray(a, c)); } return a; }
-        case RV::Obj: { cJSON* o = LIB(cJSON_CreateObject()); for (auto& e : v.obj) { cJSON* c = build_tree_cs(e.second); LIBV(cJSON_AddItemToObjectCS(o, e.first.c_str(), c)); } return o; }
-        default: return build_tree(v);
-    }
-}
 bool all_numbers(const RV& v) { if (v.k != RV::Arr) return false; for (auto& e : v.arr) if (e.k != RV::Num) return false; return true; }
 
 struct XPrint : Engine {
@@ -178,6 +170,7 @@ struct XPrint : Engine {
             for (double d : { (double)INFINITY, -(double)INFINITY, (double)NAN }) { sp.push_back(RV::number(d)); RV a = RV::mk(RV::Arr); a.arr = { RV::number(1), RV::number(d), RV::string("x") }; sp.push_back(a); RV o = RV::mk(RV::Obj); o.obj.emplace_back("v", RV::number(d)); sp.push_back(o); }
             if (mode == M_PREALLOC) for (const char* r : { "x", "[1,2]", "{\"a\":null}", "", "123456789012345678901234567890" }) { RV raw = RV::mk(RV::Raw); raw.str = r; sp.push_back(raw); RV a = RV::mk(RV::Arr); a.arr = { raw, RV::number(1) }; sp.push_back(a); RV o = RV::mk(RV::Obj); o.obj.emplace_back("r", raw); o.obj.emplace_back("s", RV::string("t")); sp.push_back(o); }
             for (auto& v : sp) { if (!pool_take()) continue; emit(v); }
+            for (int k = 0; k < 6; k++) { if (!pool_take()) continue; static Case c; c.kind = 1; c.iv[1] = k; c.len = 0; pool_run(c); }
         }
     }
 
@@ -201,8 +194,56 @@ struct XPrint : Engine {
     }
     int p_neg_checked = 0;
 
+    void prealloc_sweep(cJSON* t, const std::string base[2]) {
+            ctr().nontrivial++;
+            for (int fmt = 0; fmt < 2; fmt++) {
+                const std::string& B = base[fmt]; size_t Ln = B.size(); bool prev_ok = false; int first_ok = -1;
+                std::vector<size_t> ns; if (Ln <= 400) for (size_t n = 0; n <= Ln + 16; n++) ns.push_back(n); else { for (size_t n = 0; n <= 40; n++) ns.push_back(n); for (size_t n = 230; n <= 290; n++) ns.push_back(n); for (size_t n = Ln - 30; n <= Ln + 16; n++) ns.push_back(n); }
+                for (size_t n : ns) {
+                    uint8_t* buf = gm.rw + gm.size - n;
+                    uint8_t* can = buf - 64; memset(can, 0xC5, 64); if (n) memset(buf, (n & 1) ? 0xAA : 0x5A, n);
+                    cJSON_bool ok = LIB(cJSON_PrintPreallocated(t, (char*)buf, (int)n, fmt)); ctr().calls++; ctr().extra[3]++; ctr().compared++;
+                    for (int i = 0; i < 64; i++) if (can[i] != 0xC5) { V("write-before-buffer", "byte before the caller buffer modified (n=" + std::to_string(n) + ")"); break; }
+                    if (ok) {
+                        if (n < Ln + 1) V("true-with-short-buffer", "returned true for n=" + std::to_string(n) + " but the text needs " + std::to_string(Ln + 1) + " bytes");
+                        else if (memcmp(buf, B.c_str(), Ln + 1) != 0) V("true-but-wrong-text", "returned true for n=" + std::to_string(n) + " fmt=" + std::to_string(fmt) + " but buffer holds \"" + printable(std::string((const char*)buf, strnlen((const char*)buf, n)).substr(0, 200)) + "\" instead of \"" + printable(B.substr(0, 200)) + "\"");
+                        if (first_ok < 0) first_ok = (int)n;
+                    } else {
+                        if (n >= Ln + 1 + 5) V("false-with-large-buffer", "returned false for n=" + std::to_string(n) + " although the text (" + std::to_string(Ln) + " bytes) + terminator + 5 fits, fmt=" + std::to_string(fmt));
+                        if (prev_ok && n > 0 && ns.size() > 1) V("not-monotone", "succeeded for a smaller buffer but failed for n=" + std::to_string(n));
+                    }
+                    prev_ok = ok != 0;
+                }
+                note_outcome(0x1000 | (uint64_t)(first_ok - (int)Ln));
+            }
+            uint8_t* buf = gm.rw + gm.size - 64;
+            if (LIB(cJSON_PrintPreallocated(t, (char*)buf, -1, 0))) V("negative-length-accepted", "length -1 accepted");
+            if (LIB(cJSON_PrintPreallocated(t, nullptr, 64, 0))) V("null-buffer-accepted", "NULL buffer accepted");
+            if (LIB(cJSON_PrintPreallocated(nullptr, (char*)buf, 64, 0))) V("null-item-accepted", "NULL item printed");
+            ctr().calls += 3;
+            }
+
+    // trees that cannot be described by a reference value: string items without text, object members without a name (both print as "")
+    cJSON* null_tree(int k) {
+        cJSON* nul = LIB(cJSON_CreateStringReference(nullptr));
+        switch (k) {
+            case 0: return nul;
+            case 1: { cJSON* a = LIB(cJSON_CreateArray()); LIBV(cJSON_AddItemToArray(a, LIB(cJSON_CreateNumber(1)))); LIBV(cJSON_AddItemToArray(a, nul)); return a; }
+            case 2: { cJSON* a = LIB(cJSON_CreateArray()); LIBV(cJSON_AddItemToArray(a, nul)); LIBV(cJSON_AddItemToArray(a, LIB(cJSON_CreateString("after")))); return a; }
+            case 3: { cJSON* o = LIB(cJSON_CreateObject()); LIBV(cJSON_AddItemToObject(o, "k", nul)); LIBV(cJSON_AddItemToObject(o, "l", LIB(cJSON_CreateTrue()))); return o; }
+            case 4: { LIBV(cJSON_Delete(nul)); cJSON* o = LIB(cJSON_CreateObject()); LIBV(cJSON_AddItemToArray(o, LIB(cJSON_CreateNumber(5)))); LIBV(cJSON_AddItemToObject(o, "named", LIB(cJSON_CreateNumber(6)))); return o; }
+            default: { LIBV(cJSON_Delete(nul)); cJSON* o = LIB(cJSON_CreateObject()); cJSON* in = LIB(cJSON_CreateObject()); LIBV(cJSON_AddItemToArray(in, LIB(cJSON_CreateNull()))); LIBV(cJSON_AddItemToObject(o, "x", in)); return o; }
+        }
+    }
+    void run_null_tree(int k) {
+        long live0 = ledger_live(); cJSON* t = null_tree(k); curdesc = "special tree #" + std::to_string(k) + " (string without text / member without name)";
+        take_failed = false; std::string base[2] = { take(LIB(cJSON_PrintUnformatted(t))), take(LIB(cJSON_Print(t))) };
+        if (take_failed) V("print-failed", "cJSON_Print* returned NULL"); else { ctr().nontrivial++; if (mode == M_PREALLOC) prealloc_sweep(t, base); else prebuffer_sweep(t, base, "default allocator"); }
+        LIBV(cJSON_Delete(t)); if (ledger_live() != live0) V("leak", "allocation balance after the case is " + std::to_string(ledger_live() - live0));
+    }
     void run_case(const Case& c, bool vb) override {
         init(); verbose = vb;
+        if (c.kind == 1) { run_null_tree((int)c.iv[1]); return; }
         RV rv; if (!rv_deser(c.str(), rv)) { violation("harness:bad-case", "cannot decode case"); return; }
         curdesc = printable(rv_text(rv).substr(0, 300));
         long live0 = ledger_live(); uint64_t err0 = L.errors;
@@ -265,6 +306,14 @@ struct XPrint : Engine {
                 if (!ok) V("preallocated-failed", "cJSON_PrintPreallocated with 64 spare bytes failed");
                 else if (base[fmt] != (const char*)buf) V("variants-differ", "cJSON_PrintPreallocated text differs from cJSON_Print*");
             }
+            // any non-zero format flag means formatted output
+            for (int fv : { 2, -1, 256 }) {
+                char* r = LIB(cJSON_PrintBuffered(t, (int)base[1].size() / 2, fv)); ctr().calls++;
+                if (!r) V("printbuffered-failed", "cJSON_PrintBuffered with format flag " + std::to_string(fv) + " returned NULL");
+                else { if (base[1] != r) V("variants-differ", "cJSON_PrintBuffered with non-zero format flag " + std::to_string(fv) + " gives \"" + printable(std::string(r).substr(0, 200)) + "\" instead of the formatted text \"" + printable(base[1].substr(0, 200)) + "\""); LIBV(cJSON_free(r)); }
+                size_t n = base[1].size() + 64; uint8_t* buf = gm.rw + gm.size - n; memset(buf, 0xAA, n);
+                if (!LIB(cJSON_PrintPreallocated(t, (char*)buf, (int)n, fv)) || base[1] != (const char*)buf) V("variants-differ", "cJSON_PrintPreallocated with non-zero format flag " + std::to_string(fv) + " does not give the formatted text");
+            }
             // custom hooks: no realloc available
             install_hooks(HK_CUSTOM);
             {
@@ -276,41 +325,14 @@ struct XPrint : Engine {
             }
             install_hooks(HK_DEFAULT);
         }
-        if (printable_tree && mode == M_PREALLOC) {
-            ctr().nontrivial++;
-            for (int fmt = 0; fmt < 2; fmt++) {
-                const std::string& B = base[fmt]; size_t Ln = B.size(); bool prev_ok = false; int first_ok = -1;
-                std::vector<size_t> ns; if (Ln <= 400) for (size_t n = 0; n <= Ln + 16; n++) ns.push_back(n); else { for (size_t n = 0; n <= 40; n++) ns.push_back(n); for (size_t n = 230; n <= 290; n++) ns.push_back(n); for (size_t n = Ln - 30; n <= Ln + 16; n++) ns.push_back(n); }
-                for (size_t n : ns) {
-                    uint8_t* buf = gm.rw + gm.size - n;
-                    uint8_t* can = buf - 64; memset(can, 0xC5, 64); if (n) memset(buf, (n & 1) ? 0xAA : 0x5A, n);
-                    cJSON_bool ok = LIB(cJSON_PrintPreallocated(t, (char*)buf, (int)n, fmt)); ctr().calls++; ctr().extra[3]++; ctr().compared++;
-                    for (int i = 0; i < 64; i++) if (can[i] != 0xC5) { V("write-before-buffer", "byte before the caller buffer modified (n=" + std::to_string(n) + ")"); break; }
-                    if (ok) {
-                        if (n < Ln + 1) V("true-with-short-buffer", "returned true for n=" + std::to_string(n) + " but the text needs " + std::to_string(Ln + 1) + " bytes");
-                        else if (memcmp(buf, B.c_str(), Ln + 1) != 0) V("true-but-wrong-text", "returned true for n=" + std::to_string(n) + " fmt=" + std::to_string(fmt) + " but buffer holds \"" + printable(std::string((const char*)buf, strnlen((const char*)buf, n)).substr(0, 200)) + "\" instead of \"" + printable(B.substr(0, 200)) + "\"");
-                        if (first_ok < 0) first_ok = (int)n;
-                    } else {
-                        if (n >= Ln + 1 + 5) V("false-with-large-buffer", "returned false for n=" + std::to_string(n) + " although the text (" + std::to_string(Ln) + " bytes) + terminator + 5 fits, fmt=" + std::to_string(fmt));
-                        if (prev_ok && n > 0 && ns.size() > 1) V("not-monotone", "succeeded for a smaller buffer but failed for n=" + std::to_string(n));
-                    }
-                    prev_ok = ok != 0;
-                }
-                note_outcome(0x1000 | (uint64_t)(first_ok - (int)Ln));
-            }
-            uint8_t* buf = gm.rw + gm.size - 64;
-            if (LIB(cJSON_PrintPreallocated(t, (char*)buf, -1, 0))) V("negative-length-accepted", "length -1 accepted");
-            if (LIB(cJSON_PrintPreallocated(t, nullptr, 64, 0))) V("null-buffer-accepted", "NULL buffer accepted");
-            if (LIB(cJSON_PrintPreallocated(nullptr, (char*)buf, 64, 0))) V("null-item-accepted", "NULL item printed");
-            ctr().calls += 3;
-        }
+        if (printable_tree && mode == M_PREALLOC) prealloc_sweep(t, base);
         Walk w1 = walk(t);
         if (w0.ok && (!w1.ok || w1.text != w0.text)) V("tree-modified-by-print", "printing changed the tree");
         LIBV(cJSON_Delete(t));
         if (ledger_live() != live0) V("leak", "allocation balance after the case is " + std::to_string(ledger_live() - live0));
         if (L.errors != err0) V("allocator-misuse", L.first_error);
     }
-    std::string describe(const Case& c) override { RV rv; if (!rv_deser(c.str(), rv)) return "?"; return printable(rv_text(rv).substr(0, 160)); }
+    std::string describe(const Case& c) override { if (c.kind == 1) return "special tree #" + std::to_string(c.iv[1]) + " (string without text / member without name)"; RV rv; if (!rv_deser(c.str(), rv)) return "?"; return printable(rv_text(rv).substr(0, 160)); }
     void finish(std::map<std::string, std::string>& x) override {
         x["rule"] = jstr("one case = one reference tree, built through the construction API, constant-key API, bulk constructors and the parser; evaluations = trees, transitions = library calls, "
                          "non-trivial = trees that printed; every print entry point x every prebuffer/caller-buffer size x both allocator configurations is executed per tree");
